@@ -206,6 +206,13 @@ var variants = []variant{
 		b.Data = d
 		return true
 	}},
+	{"signature-trailing-bytes", func(r *simrt.Run, b *nom.AccountBlock) bool {
+		if len(b.Signature) == 0 {
+			return false
+		}
+		b.Signature = append(append([]byte(nil), b.Signature...), r.T.Bytes(1+r.T.Choose(8))...)
+		return true
+	}},
 	{"public-key-dropped", func(r *simrt.Run, b *nom.AccountBlock) bool {
 		if len(b.PublicKey) == 0 {
 			return false
@@ -338,6 +345,33 @@ func runC13(r *simrt.Run) {
 				roundTripMomentum(r, d)
 				if b.Height() != h-1 {
 					continue
+				}
+				if variantPct > 0 && t.Prob(variantPct, 100) {
+					// the momentum itself arrives as a variant with the same hash first
+					v := nomsim.CloneDetailed(d)
+					class := "momentum-signature-trailing-bytes"
+					if t.Bool() {
+						v.Momentum.Signature = append(append([]byte(nil), v.Momentum.Signature...), t.Bytes(1+t.Choose(8))...)
+					} else {
+						class = "momentum-public-key-padded"
+						v.Momentum.PublicKey = append(append([]byte(nil), v.Momentum.PublicKey...), 0)
+					}
+					r.Fault("in-flight-variant-" + class)
+					variantsDelivered++
+					if _, err := b.Bridge.InsertChain([]*nom.DetailedMomentum{v}); err == nil && b.Height() == h {
+						am, _ := a.Chain.GetFrontierMomentumStore().GetMomentumByHeight(h)
+						bm, _ := b.Chain.GetFrontierMomentumStore().GetMomentumByHeight(h)
+						ab, _ := am.Serialize()
+						bb, _ := bm.Serialize()
+						if !bytes.Equal(ab, bb) {
+							r.Fail("same-hash-different-bytes", class, "node B accepted a variant of momentum %d (hash %v) and stores bytes different from node A's (signature %d vs %d bytes, public key %d vs %d bytes)", h, d.Momentum.Hash, len(bm.Signature), len(am.Signature), len(bm.PublicKey), len(am.PublicKey))
+						}
+					} else {
+						r.Probe("momentum-variant-refused")
+					}
+					if b.Height() != h-1 {
+						continue
+					}
 				}
 				idx, err := b.Bridge.InsertChain([]*nom.DetailedMomentum{d})
 				if err != nil || idx != 0 {
